@@ -187,7 +187,6 @@ func c18MdLen(tp *simkit.Tape, small bool) int {
 	return tp.Choose(200, "mdlen")
 }
 
-
 // Sealed requests produced once by the library's constructors (identity V1,
 // multihash of "canned", context "canned-ctx") and committed here: a process
 // that only ever reads requests - an indexer - must accept them, also when
